@@ -42,7 +42,9 @@ def generate(ctx):
             p = pdalib.rand_pda(rng, names="plain" if rng.random() < 0.85 else "adv", max_states=3 if big else 2,
                                 max_stack=3 if big else 2, max_trans=6 if big else 5)
             cases.append({"op": op, "g": {"profile": "pda:" + p["profile"], "prods": [], "terms": p["inputs"]}, "p": p, "maxlen": 3 if ctx.tier == "quick" else 4,
-                          "twice": rng.random() < 0.3, "with_model": i % 3 == 0})
+                          "twice": rng.random() < 0.3, "with_model": i % 3 == 0,
+                          # to_cfg after other conversions of the same object, and of objects derived from it (they share the wrapper objects)
+                          "chain": op == "pda_to_cfg" and rng.random() < 0.4})
     return cases
 
 
@@ -68,7 +70,11 @@ def impl(case):
     before = pdalib.extract_pda(p)
     if case.get("twice"):        # conversions of the same object twice: the second result is the one judged
         getattr(p, {"pda_to_cfg": "to_cfg"}.get(op, op))()
-    if op == "pda_to_cfg":
+    if op == "pda_to_cfg" and case.get("chain"):
+        p.to_cfg()
+        # to_final_state then to_empty_stack accept by empty stack what p accepts by empty stack
+        out = {"cfg": cfglib.extract_cfg(p.to_final_state().to_empty_stack().to_cfg())}
+    elif op == "pda_to_cfg":
         out = {"cfg": cfglib.extract_cfg(p.to_cfg())}
     else:
         out = {"pda": pdalib.extract_pda(getattr(p, op)())}
